@@ -10,11 +10,12 @@ import Driver.Scalar
 import Driver.Fmt
 import Driver.Ledger
 import Driver.Effects
+import Driver.Par
 
 open Driver
 
 def dispatch (w : World) (ws : List String) : World × String :=
-  match (cmdIndex ws <|> cmdConstruct ws <|> cmdScalar ws <|> cmdFmt ws <|> cmdEffects ws) with
+  match (cmdIndex ws <|> cmdConstruct ws <|> cmdScalar ws <|> cmdFmt ws <|> cmdEffects ws <|> cmdPar ws) with
   | some s => (w, s)
   | none =>
     match stepHist w ws with
